@@ -320,6 +320,14 @@ class TagList(UserList[TagNode]):
 
         return TagList(*item, self)
 
+    def __iadd__(self, item: Iterable[TagChild]) -> TagList:
+        """
+        Extend the children in place (`+=`), normalizing the new items like `extend()`.
+        """
+
+        self.extend(item)
+        return self
+
     def tagify(self) -> "TagList":
         """
         Convert any tagifiable children to Tag/TagList objects.
